@@ -41,6 +41,8 @@ func main() {
 		cmdExcl(os.Args[2:])
 	case "stress":
 		cmdStress(os.Args[2:])
+	case "acl":
+		cmdACL(os.Args[2:])
 	default:
 		die(2, "unknown driver %q", os.Args[1])
 	}
